@@ -108,6 +108,8 @@ pub fn gen_struct(ctx: &mut Ctx, o: &FOpts) -> Option<FCase> {
             5 => {
                 let body = if need_rename { format!("{}, i64", tgt) } else { "i64".to_string() };
                 f.attrs.push(Instr::new("as_type", ded, &body));
+                // the cast generated for the From side is chosen from the member's own type (seed C20-05: a char member)
+                f.ty = ["i32", "char", "f32", "u8", "bool"][ctx.choose(5)].to_string();
             }
             6 => {
                 if !cp_named && named {
